@@ -257,8 +257,9 @@ class GlueReducedH(Harness):
             return out
         theory, ans, _ = last
         idx = SolveBuiltinH._index_of(theory, st)
-        out.append(("reduced.statements-identify-the-nodes", idx is not None))
         if idx is None:
+            from pyvc.engine import NotRecognised
+            out.append(("reduced.statements-identify-the-nodes", NotRecognised("statements cannot be matched to the model's nodes by bounds / child sets")))
             return out
         node_of = {i: n for n, i in idx.items()}
         nr, nc = ans.a.nrows, ans.a.ncols
